@@ -368,6 +368,8 @@ def _gen_invariance(seed, cfg):
                     v = rh.choice([rh.randint(0, 31), rh.choice([0, 1, 5, 29, 30, 31, 2.5]), rh.choice(pool_txt), rh.choice(pool_txt)])
                     sets.append({'tg': [cc, rr], 'v': v})
                 ent['set'] = sets
+                if rh.random() < 0.4:
+                    ent['mutate_after'] = True        # ... and changes the objects it passed once the call has returned
             ent['perm'] = rh.randrange(1 << 30) if rh.random() < 0.5 else 0
             if rh.random() < 0.25:
                 ent['repeat'] = True          # evaluate everything twice at this instant
@@ -491,6 +493,10 @@ def _exec_invariance(plan):
                 set_out = outcome_of_exc(e)
                 mism.append({'key': 'set-raised', 'cell': '', 'formula': '', 'instants': [ti, ti], 'dates': [ld.isoformat()] * 2,
                              'observed': set_out, 'expected': ['ok']})
+            if t.get('mutate_after'):
+                for c_ in batch:
+                    c_.value = 'changed-by-the-caller-after-the-call'
+                probe('caller_changed_passed_cell_objects_afterwards')
             epoch += 1
             probe('override_between_two_instants')
             feats.add('override')
@@ -1100,9 +1106,14 @@ def shrink(plan):
                     yield p
                 chunk //= 2
         for i, t in enumerate(tl):
+            if t.get('mutate_after'):
+                p = copy.deepcopy(plan)
+                del p['timeline'][i]['mutate_after']
+                yield p
             if t.get('set'):
                 p = copy.deepcopy(plan)
                 del p['timeline'][i]['set']
+                p['timeline'][i].pop('mutate_after', None)
                 yield p
                 if len(t['set']) > 1:
                     for j in range(len(t['set'])):
